@@ -275,10 +275,16 @@ def run(out: Outcome) -> None:
     for (b, m, mt) in grid:
         f = formulas(b, m, mt)
         for meth in ("conservative", "estimate", "exact", "approximate"):
-            val = float(getattr(PermutationTestDistanceBased, "_compute_" + meth)(**(
+            try:
+              val = float(getattr(PermutationTestDistanceBased, "_compute_" + meth)(**(
                 {"num_permutations": m, "observed_statistic": 0.0, "permuted_statistic": np.array([0.0] * b + [-1.0] * (m - b))} if meth == "conservative" else
                 {"extreme_statistic": np.array([True] * b + [False] * (m - b))} if meth == "estimate" else
                 {"extreme_statistic": np.array([True] * b + [False] * (m - b)), "total_num_permutations": mt, "permuted_statistic": np.zeros(m)})))
+            except (TypeError, AttributeError):
+                # the PRIVATE helpers are called by their current keyword names: after a restructuring of them this grid is skipped (the same formulas are checked
+                # through `compare` with the callback attached, above)
+                out.count("private_p_value_helpers_not_callable")
+                continue
             key = "approximate-as-coded" if meth == "approximate" else meth
             if not close(val, f[key], 1e-9):
                 out.violation(f"_compute_{meth}(b={b}, m={m}, m_t={mt}) = {val!r} differs from its formula {f[key]!r}", {"b": b, "m": m, "mt": mt, "method": meth})
